@@ -66,7 +66,9 @@ Definition outcome_agree (q : request) (spec impl : outcome) : bool :=
   | OTLSReject, OTLSReject => true
   | OStatus a, OStatus b => (a =? b)%Z
   | ORedirect c sc ho po _, ORedirect c' sc' ho' po' _ => (c =? c')%Z && redirect_agree q sc ho po sc' ho' po'
-  | OProxy g bs _, OProxy g' bs' _ => Bool.eqb g g' && shares_agree bs bs'
+  | OProxy g bs _ t, OProxy g' bs' _ t' => Bool.eqb g g' && shares_agree bs bs' &&
+      (* TLS verification settings matter only if some real backend receives traffic *)
+      (opt_pair_eqb t t' || forallb (fun e => seqb (fst e) invalid_backend || (snd e =? 0)%Z) bs')
   | _, _ => false
   end.
 
@@ -75,7 +77,7 @@ Definition known_D33 := 33.
 Definition known_D34 := 34.
 
 Definition flip_grpc (o : outcome) : outcome :=
-  match o with OProxy g bs fs => OProxy (negb g) bs fs | _ => o end.
+  match o with OProxy g bs fs t => OProxy (negb g) bs fs t | _ => o end.
 
 Definition check_request (cs : cluster) (conf : list dir) (tbl : matchtable) (q : request) : list nat :=
   let impl := eval_http conf tbl q in
